@@ -95,6 +95,12 @@ CHECKS['C16'] = dict(
     text='Theorems: for every digit-free prefix and any two 14-digit stamps the Wayback/UK comparators equate URLs differing only in the stamp; for every ;-free prefix the session comparator equates URLs differing only in the session id; a compound comparator equates exactly what some member equates. For all token lists that are pairwise == under the rules and whose key-different positions hold URLs occurring nowhere on the other side: single Equal opcode, counts (0,0,0) - any number of rewritten links/images at any position (partial: freshness hypothesis; C16_zero_refuted_without_freshness exhibits the failing pair, replayed on the code as known finding). With rules off a differing link target always gives change_count > 0 (from soundness of every matching block). Pattern sources and rule table regenerated and pinned. Tied by url_eq correspondence with the live classes, htmldiff correspondence under every rule set, and observers over generated pages x all rule permutations/spellings x first/last/adjacent sweeps.',
     note=RENDER_NOTE + ' The three regular expressions are hand-specialised matchers tied by pinned sources and correspondence.', design='5/C16')
 
+CHECKS['C10'] = dict(
+    technique='Coq proof over the model of the table builder and of BeautifulSoup prettify: reading the produced string back with an HTML tokenizer specification yields exactly the scaffold tags and the (escaped) entry texts - for all texts, targets and titles + char-for-char extracted-model correspondence of the whole returned document + independent html5-parser observer against links_diff_json',
+    text='Theorems for all link texts, targets, nested text diffs, titles and any palette without "<": tokenizing the string the model returns gives the doctype, the fixed head (title as one text token) and table header, then exactly one token group per diff entry in order, then the closing tags; the number of tr.links-list--item start tags equals the number of entries; a plain entry shows its text as one text token and its target as the href of the only link and as that link text; text tokens never contain < or >, an attribute body never contains its quote character, and both decode to the original string; the strings of one side of a changed entry concatenate to that side of the nested diff; every tag read back is scaffold, style or ins/del with exactly class=wm-diff. The general lemma holds for every tree with well-formed tag/attribute names (prettify read-back). Tied by char-for-char correspondence of the whole returned document with links_diff_html on generated hostile pages, with the entries taken from links_diff_json; an html5-parser observer checks rows, texts, targets, title and scaffold independently of the model.',
+    note='Trusted: Coq kernel, gen_tables.py (CSS template, CHANGE_INFO), extraction, harness. Modelled not verified: BeautifulSoup prettify/minimal formatter (re-modelled, tied char for char), html5-parser for the page template; links_diff (C04) and dmp (C05 contract) produce the entries. The tokenizer specification is written for this model and validated against html5-parser on every run.',
+    design='5/C10')
+
 NOT_YET = {}
 
 
